@@ -410,6 +410,9 @@ func (d *dataPlane) SetKey(key []byte) error {
 func (d *dataPlane) SetPortRange(start, end uint16) {
 	d.dispatchedPortStart = start
 	d.dispatchedPortEnd = end
+	for _, u := range d.underlays {
+		u.SetDispatchPorts(start, end, topology.EndhostPort)
+	}
 }
 
 // AddInternalInterface sets the interface the data-plane will use to send/receive traffic in the
